@@ -1,12 +1,11 @@
-//! Kani harnesses over /repo/deduplication (properties C01, C02, C03, C04, C14, C15).
+//! Kani harnesses over /repo/cas_object (properties C07, C08, part of C02).
 #![allow(unused)]
 #[cfg(kani)]
 pub mod stubs;
 #[cfg(kani)]
-mod c04;
+mod c07;
 #[cfg(kani)]
-pub mod dd;
-#[cfg(kani)]
+mod c08;
 
 #[cfg(kani)]
 #[kani::proof]
